@@ -154,7 +154,10 @@ def real_verdict(r):
     msgs = " | ".join(d["message"] for d in r.get("diagnostics") or [])
     if "cycle" in msgs:
         return 1
-    if "orphan rule" in msgs and not ("not imported" in msgs or "Unresolved" in msgs or "not defined" in msgs or "Unknown" in msgs):
+    vis = any(x in msgs for x in ("not imported", "Unresolved", "not defined", "Unknown type constructor", "Unknown"))
+    if vis:
+        return 2
+    if "orphan rule" in msgs:
         return 3
     if "already defined" in msgs or "multiple packages" in msgs:
         return 4
